@@ -49,6 +49,7 @@ func checkC18(cfg *core.Config) int {
 	progs = append(progs, sqlProgs(cfg.Seed, cfg.Pick(16, 800))...)
 	progs = append(progs, routeProgs(cfg.Seed, cfg.Pick(16, 800))...)
 	progs = append(progs, pinnedPrograms("C18")...)
+	progs = append(progs, staticPrograms("C18")...)
 	pl := NewPipeline(cfg, rep, progs, true)
 	defer pl.Close()
 
